@@ -60,6 +60,10 @@ type Case struct {
 	// tiny last one, "isize" = one member whose ISIZE trailer field is forged
 	// to 1 (an invalid stream: must fail or at least never be delivered).
 	GzipMode string `json:"gzip_mode,omitempty"`
+	// PrefixWidth is the width of the varint length prefixes of an HTTP
+	// protobuf client stream: 0 = minimal, -1 = minimal plus one byte, k > 0
+	// = padded to k bytes (non-minimal varints are legal wire format).
+	PrefixWidth int `json:"prefix_width,omitempty"`
 	// UnknownLen: the HTTP body is sent without a length (in-process
 	// ContentLength -1; HTTP/1.1 chunked or h2 without content-length on
 	// real sockets).
@@ -152,6 +156,12 @@ func (c *Case) lane() string {
 	}
 	if c.AcceptGzip {
 		s += "/accept-gzip"
+	}
+	switch {
+	case c.PrefixWidth < 0:
+		s += "/prefix-width+1"
+	case c.PrefixWidth > 0:
+		s += fmt.Sprintf("/prefix-width%d", c.PrefixWidth)
 	}
 	if c.UnknownLen {
 		s += "/unknown-length"
